@@ -23,8 +23,7 @@ RULE = ('cases = (caller in raw AtomicFile API / users / channels / networks / i
         'RAISED (SystemExit as from the SIGTERM handler at every point, KeyboardInterrupt at a fifth of them (half in the thorough tier), '
         'an OSError at the writes/close of the temp file), the stack unwinds through the real finally/except/with blocks, the AtomicFile '
         'object is collected (__del__), the child exits normally; effect sequence and disk are compared with the model (prefix + '
-        'unwinding; or, where the regenerated table says the caller swallows write errors, the committed file without that chunk) and '
-        'with the property.  one evaluation = one (case, fault point, death mode); '
+        'unwinding) and with the property.  one evaluation = one (case, fault point, death mode); '
         'non-trivial = distinct (case, fault point, mode) with at least one effect executed')
 TRUSTED = ['the file-system model itself (POSIX contract, not Limnoria code): rename is an atomic replace, append extends, open(w) truncates, '
            'open(a) creates an empty file iff absent, data handed to the kernel survives process death; power loss / fsync ordering is out of scope',
@@ -34,8 +33,9 @@ TRUSTED = ['the file-system model itself (POSIX contract, not Limnoria code): re
            'os.sendfile counts to make several chunks (legal kernel behaviour)',
            'cross-device rename is simulated by raising OSError(EXDEV) from os.rename when no second file system is available',
            'death by exception: the fault is raised from the wrappers of the I/O primitives (before/after each effect), once; exceptions '
-           'raised while the object is being finalised (__del__) are ignored by CPython and are not fault points; which source lines '
-           'swallow a write error / commit on unwinding comes from harness/tables/t17.py (ast scan of every AtomicFile call site)',
+           'raised while the object is being finalised (__del__) are ignored by CPython and are not fault points; which call sites '
+           'swallow a write error / commit on unwinding comes from harness/tables/t17.py (ast scan of every AtomicFile call site; both lists '
+           'must be empty for the theorems to check)',
            'user-space buffering of the temp file: before its close the on-disk temp file is only required to be a prefix of the model content']
 ASSUMPTIONS = ['world.testing/log.testing off', 'crash = process death (os._exit) or an exception (SystemExit/KeyboardInterrupt/OSError) raised '
                'at an effect boundary that unwinds the stack, after which the process exits normally; kernel keeps completed system calls',
@@ -45,8 +45,10 @@ LEVEL_TEXT = ('Coq theorems over an executable effect-list model of utils.file.A
               '(or empty on a first-ever save); refuted with a witness when tmpDir is on another file system (finding F20), where the target is '
               'proved to be old or a prefix of new; temp/backup names never alias the target; rollback, empty-overwrite and backup rules; the same atomicity when death is an exception '
               'that unwinds the stack (prefix of the effects followed by what __del__/__exit__ and the callers do, taken from the regenerated '
-              'table: no caller commits in finally/except), refuted with a witness for registry.close, which swallows the I/O error of a write '
-              'and commits the file without that value (finding F44).  The '
+              'table: no caller commits in finally/except and, since the fix of finding C17.F44 in registry.close, none swallows the I/O error '
+              'of a write), for every caller; one statement over all death modes (C17_atomic_any_death) and its composition with the loader '
+              'models of C16/C15 and the FlatfileMapping iterator over the caller table: the surviving file loads to the old or the new state '
+              '(C17_loads; an empty file loads as no file).  The '
               'model is tied to the source by regenerated naming constants/defaults and by fault enumeration on the real code: real effect '
               'sequence and on-disk bytes after a kill at every effect boundary are compared with the model for all callers.')
 LEVEL_NOTE = ('Trusted: Coq kernel, gen_tables.py, extraction + OCaml driver, the Python harness (I/O wrappers, fork/kill machinery), the POSIX '
@@ -65,7 +67,7 @@ CALLERS = ('users', 'channels', 'networks', 'ignores', 'userdata', 'vacuum', 're
 # instrumentation (runs in the grandchild only)
 class Rec:
     def __init__(self, crash, chunk, exdev, xdir, logfd):
-        self.events, self.writes, self.wsrc = [], [], []
+        self.events, self.writes = [], []
         self.crash = (crash[0], crash[1]) if crash else None
         self.mode = crash[2] if crash and len(crash) > 2 else 'kill'
         self.fired = None
@@ -92,7 +94,7 @@ class Rec:
 
     def dump(self, status, exc=None):
         data = {'events': self.events, 'writes': [w.decode('latin1') for w in self.writes], 'info': self.info,
-                'status': status, 'exc': exc, 'other': self.other, 'fired': self.fired, 'wsrc': self.wsrc}
+                'status': status, 'exc': exc, 'other': self.other, 'fired': self.fired}
         _real['write'](self.logfd, json.dumps(data).encode())
 
     def die(self):
@@ -128,12 +130,7 @@ class TempProxy:
     def _bytes(self, data):
         return data.encode(self._enc) if isinstance(data, str) else bytes(data)
 
-    def _src(self):
-        f = sys._getframe(3)       # caller of AtomicFile.write/writelines
-        self._rec.wsrc.append([os.path.basename(f.f_code.co_filename), f.f_lineno])
-
     def write(self, data):
-        self._src()
         self._rec.before()
         r = self._fd.write(data)
         b = self._bytes(data)
@@ -144,7 +141,6 @@ class TempProxy:
     def writelines(self, lines):
         lines = list(lines)
         b = b''.join(self._bytes(x) for x in lines)
-        self._src()
         self._rec.before()
         r = self._fd.writelines(lines)
         self._rec.writes.append(b)
@@ -802,20 +798,6 @@ def evaluate(ctx, cases, limit=40, kind_prefix=''):
     uw_out = ctx.model([[4, infos[ci]['wire'][1][:7] + [k, inited, infos[ci]['full_temp']]] for ci, k, inited in uw_keys]) \
         if uw_keys else []
     uw = dict(zip(uw_keys, uw_out))
-    # callers that swallow the OSError of a write (table: SWALLOW_WRITE_ERROR_SITES) go on and commit without that chunk
-    sw_keys = sorted({(ci, pt) for ci, pt, mode in owner if mode == 'OSError' and infos[ci].get('wire') is not None
-                      and 'names' in infos[ci] and swallowed_write(recs[ci]['log'], pt) is not None})
-    sw_wires = []
-    for ci, pt in sw_keys:
-        j = swallowed_write(recs[ci]['log'], pt)
-        w = list(infos[ci]['wire'][1])
-        wops = [o for o in w[5] if o[0] == 0]
-        if pt[1] == 'before':
-            del wops[j]
-        w[5] = wops + [o for o in w[5] if o[0] != 0]
-        w[7] = [100000]          # beyond the last effect: the final state
-        sw_wires.append([0, w])
-    sw = dict(zip(sw_keys, ctx.model(sw_wires) if sw_wires else []))
     res = run_jobs(jobs)
     for (ci, pt, mode), r in zip(owner, res):
         c, info = cases[ci], infos[ci]
@@ -835,9 +817,6 @@ def evaluate(ctx, cases, limit=40, kind_prefix=''):
                 ctx.disagree(inp, '%s raised at %r' % (mode, pt), {k: r.get(k) for k in ('error', 'exit', 'log')}, 'fault point not reached')
                 continue
             m = uw.get((ci, k, pt[0] != 0))
-            if mode == 'OSError' and (ci, pt) in sw:
-                m = sw[(ci, pt)]
-                m = m if (m is None or isinstance(m, tuple)) else [m[2], m[3][0]]
             if m is not None:
                 if isinstance(m, tuple):
                     ctx.disagree(inp, m, None, 'model error')
@@ -859,27 +838,6 @@ def evaluate(ctx, cases, limit=40, kind_prefix=''):
 
 
 MODES = ('SystemExit', 'KeyboardInterrupt', 'OSError')
-_swallow_lines = {}
-
-
-def swallowed_write(log, pt):
-    """index of the temp-file write that is effect pt[0], if its source line is a write whose OSError the caller swallows
-    (harness/tables/t17.py: the same extraction that fills SWALLOW_WRITE_ERROR_SITES); else None"""
-    if not _swallow_lines:
-        sys.path.insert(0, os.path.join(os.path.dirname(os.path.abspath(__file__)), 'tables'))
-        import t17
-        _swallow_lines.update(t17.call_sites()[3] or {'': set()})
-    sess = log['info'].get('sessions', [])
-    ev = log['events'][pt[0]]
-    if len(sess) != 1 or ev[0] != 'append' or ev[1] != sess[0]['temp']:
-        return None
-    j = sum(1 for e in log['events'][:pt[0]] if e[0] == 'append' and e[1] == sess[0]['temp'])
-    if j >= len(log.get('wsrc', [])):
-        return None
-    fn, line = log['wsrc'][j]
-    return j if line in _swallow_lines.get(fn, ()) else None
-
-
 def fault_plan(ctx, c, info, log, ci):
     """[(point, mode)]: every crash point dies by kill; by SystemExit (what the SIGTERM handler raises); a fifth of them
     (half in the thorough tier) by KeyboardInterrupt; the writes/close of the temp file also by an OSError"""
@@ -985,6 +943,13 @@ CORPUS = [
     raw_case('long old content ' * 4, ['short\n'], backup='dir', tmp='same', chunk=16, with_=True),
 ]
 
+# fixed finding C17.F44 (registry.close swallowed the I/O error of a write and committed the file without that value):
+# its old witnesses stay in the corpus, so that the violation is reported again should it ever return
+CORPUS += [
+    dict(db_case('registry', {'n': 0, 'v': 1}, {'n': 0, 'v': 2}), crash=[3, 'before', 'OSError']),
+    dict(db_case('userdata', {'n': 3, 'v': 1}, {'n': 1, 'v': 2}, backup='dir', chunk=32), crash=[3, 'before', 'OSError']),
+]
+
 TMPS = ['none', 'same', 'exdev', 'realxdev']
 BACKUPS = ['none', 'dir', 'devnull']
 
@@ -1006,7 +971,8 @@ def gen_raw(rng):
     if rng.random() < 0.1:
         ops = [rng.choice([['w', 'q'], ['close'], ['rollback']]) for _ in range(rng.randint(1, 5))]
     return raw_case(old, writes, tmp=tmp, backup=rng.choice(BACKUPS), mbis=rng.choice([None, True, False]),
-                    aeo=rng.choice([None, True, False]), end=end, chunk=rng.choice([0, 1, 3, 7, 64, 4096]), ops=ops,
+                    aeo=rng.choice([None, True, False]), end=end,
+                    chunk=rng.choice([0, 64, 4096] if shape == 'big' else [0, 1, 3, 7, 64, 4096]), ops=ops,
                     explicit=rng.random() < 0.3, with_=(ops is None and end == 'close' and rng.random() < 0.3))
 
 
@@ -1027,6 +993,57 @@ def gen_db(rng, caller):
 
 def usable(c):
     return c.get('tmp') != 'realxdev' or xdev_available()
+
+
+FLAT_TEXTS = ['0003\n0001:record one\n0002:second: with colon\n', '0003\n----:removed\n0002:kept\n', '0001\n', '0002\n0001:no newline at end',
+              '0002\n0001:a\r\n', '0002\n0001:\n', '0003\n0001:x\nbroken line\n0002:y\n', '0003\n0001:x\nab:notanumber\n', '0002\n:empty id\n',
+              '0002\n0001:caf\xe9\n', '0002\n\n0001:x\n', '0002\n0001:x\n\n', '0004\n-001:gone\n0002:b\n0003:c:d:e\n']
+
+
+def check_loader_table(ctx, only=None):
+    """the caller table of theorem C17_loads on the implementation: (1) an empty file loads to the same state as no
+    file for every caller that may meet a first-ever save; (2) the FlatfileMapping iterator model (flat_load) against
+    the real one.  (The other loader models are those of C16/C15, validated by those checks.)"""
+    from lib import wire
+    d = boot.boot()
+    base = os.path.join(d, 'loaders%d' % os.getpid())
+    os.makedirs(os.path.join(base, 'scratch'), exist_ok=True)
+    try:
+        for caller in ('users', 'channels', 'networks', 'ignores', 'userdata'):
+            inp = {'op': 'empty-file', 'caller': caller}
+            if only is not None and only != inp:
+                continue
+            ctx.case('loader/empty-vs-absent', inp)
+            path = os.path.join(base, os.path.basename(target_of({'caller': caller})))
+            open(path, 'w').close()
+            got = loaded_state(caller, path, os.path.join(base, 'scratch'))[0]
+            absent = loaded_state_here(caller, path + '.absent', os.path.join(base, 'scratch'))[0]
+            if got != absent:
+                ctx.fail(inp, 'an empty %s loads to %r, no file to %r (the first-ever-save window is not harmless)' % (caller, got, absent))
+        texts = list(FLAT_TEXTS)
+        if only is None:
+            for _ in range(ctx.n(40)):
+                n = ctx.rng.randint(0, 5)
+                texts.append('%04d\n' % (n + 1) + ''.join(
+                    ctx.rng.choice(['%04d:rec %d\n' % (i, i), '----:gone\n', '%04d:a:b\n' % i, '%04d:\n' % i, 'junk\n', '%04d:x' % i])
+                    for i in range(1, n + 1)))
+        else:
+            texts = [only['text']] if only.get('op') == 'flat-load' else []
+        outs = ctx.model([[5, t] for t in texts]) if texts else []
+        for t, mo in zip(texts, outs):
+            inp = {'op': 'flat-load', 'text': t}
+            ctx.case('loader/flat', inp)
+            path = os.path.join(base, 'flat.db')
+            with open(path, 'w', encoding='utf8') as f:
+                f.write(t)
+            real = loaded_state('vacuum', path, os.path.join(base, 'scratch'))[0]
+            if mo is not None and not isinstance(mo, tuple):
+                r = wire.r(mo, lambda l: [(int(wire.s(kv[0])), wire.s(kv[1])) for kv in l])
+                mine = repr(r[1]) if r[0] == 'ok' else 'LOAD-ERROR %s' % r[1]
+                if mine != real:
+                    ctx.disagree(inp, mine, real, 'FlatfileMapping iteration')
+    finally:
+        shutil.rmtree(base, True)
 
 
 def run(ctx):
@@ -1060,20 +1077,22 @@ def run(ctx):
     if ctx.scale > 1:
         big.append(db_case('registry', {'n': 1, 'v': 1}, {'n': 1, 'v': 2}, tmp='exdev', backup='none', chunk=20000))
     evaluate(ctx, big, limit=24 if ctx.scale == 1 else 120, kind_prefix='full-')
+    check_loader_table(ctx)
 
 
-CLASSES = {'write_error_swallowed': lambda inp: inp.get('caller') in ('registry', 'userdata') and
-           len(inp.get('crash') or []) > 2 and inp['crash'][2] == 'OSError' and inp.get('tmp') not in ('exdev', 'realxdev'),
-           'tmpdir_other_fs': lambda inp: inp.get('tmp') in ('exdev', 'realxdev') and
+CLASSES = {'tmpdir_other_fs': lambda inp: inp.get('tmp') in ('exdev', 'realxdev') and
            (inp.get('caller') != 'raw' or any(o[0] == 'close' for o in inp.get('ops', [])))}
 
 
 def replay(ctx, inp):
     boot.boot()
     import supybot.ircdb, supybot.dbi, supybot.world  # noqa: F401
+    sub = type(ctx)(ctx.pid, ctx.tier, ctx.seed, {'model_ok': False})
+    if inp.get('op') in ('empty-file', 'flat-load'):
+        check_loader_table(sub, only=inp)
+        return sub.failures[0]['detail'] if sub.failures else None
     if not usable(inp):
         inp = dict(inp, tmp='exdev')
-    sub = type(ctx)(ctx.pid, ctx.tier, ctx.seed, {'model_ok': False})
     evaluate(sub, [inp], limit=10 ** 6)
     return sub.failures[0]['detail'] if sub.failures else None
 
